@@ -196,15 +196,18 @@ fn script_level(d: &MDesc, p: &MPol, dead: &Option<String>, src: &mut Src, rep: 
 impl Check for C08 {
     fn id(&self) -> &'static str { "C08" }
     fn rule(&self) -> String {
-        "case = valid concrete policy (binary and / weighted or with odds 1..127, thresh with every k, distinct keys, hashes, consistent time locks, 1-8 leaves) x target in {compile::<Bare|Legacy|Segwitv0|Tap>, compile_to_descriptor(Bare|Sh|Wsh|ShWsh|Tr(None|Some(key))), compile_tr(None|Some), compile_tr_native(max_leaves in {1,2,8,1024}), compile_tr_private_experimental}. On Ok: (1) truth table of lift(output) == truth table of the policy over all assignments (an unspendable internal key counts as absent); (2) 6 sampled worlds: ground-truth witness search on the independently encoded output == policy value; (3) every output miniscript validates under its context's default sanity rules, is typed signed and non-malleable; (4) every node's stored type/extra data equals a from_ast rebuild; (5) the output's string re-parses under the default parser to the same AST; (6) tr-native leaves contain no IF-family fragment, the internal key is a policy key or the supplied one. Non-trivial = compile succeeded and the policy has an or / thresh(k<n); distinct by (policy text, target).".into()
+        "case = valid concrete policy (binary and / weighted or with odds 1..127, thresh with every k, distinct keys, hashes, consistent time locks, 1-8 leaves) x target in {compile::<Bare|Legacy|Segwitv0|Tap>, compile_to_descriptor(Bare|Sh|Wsh|ShWsh|Tr(None|Some(key))), compile_tr(None|Some), compile_tr_native(max_leaves in {1,2,8,1024}), compile_tr_private_experimental}. On Ok: (1) truth table of lift(output) == truth table of the policy over all assignments (an unspendable internal key counts as absent); (2) 6 sampled worlds: ground-truth witness search on the independently encoded output == policy value; (3) every output miniscript validates under its context's default sanity rules, is typed signed and non-malleable; (4) every node's stored type/extra data equals a from_ast rebuild; (5) the output's string re-parses under the default parser to the same AST; (6) tr-native leaves contain no IF-family fragment, the internal key is a policy key or the supplied one. lane `nary`: policies with 3-4-ary and / or built through the enum constructors: refused or compiled with the same meaning. Non-trivial = compile succeeded and the policy has an or / thresh(k<n); distinct by (policy text, target).".into()
     }
     fn lanes(&self, tier: Tier) -> Vec<(&'static str, usize, usize)> {
         match tier {
-            Tier::Quick => vec![("compile", 48_000, 300)],
-            Tier::Thorough => vec![("compile", 960_000, 400)],
+            Tier::Quick => vec![("compile", 48_000, 300), ("nary", 12_000, 300)],
+            Tier::Thorough => vec![("compile", 960_000, 400), ("nary", 240_000, 400)],
         }
     }
-    fn run_case(&self, _lane: &str, src: &mut Src, rep: &mut Report) -> Result<(), Failure> {
+    fn run_case(&self, lane: &str, src: &mut Src, rep: &mut Report) -> Result<(), Failure> {
+        // lane nary: and / or with 3-4 children, built through the enum constructors (the text
+        // parser refuses them): every compile entry must refuse them too or keep the meaning
+        let nary = lane == "nary";
         let cfg = PolCfg {
             max_leaves: 7,
             allow_const: src.chance(1, 10),
@@ -216,7 +219,7 @@ impl Check for C08 {
             consistent_locks: !src.chance(1, 4),
             max_weight: 127,
             allow_thresh: true,
-            binary: true,
+            binary: !nary,
         };
         let mut p = gen::gen_policy(src, &cfg);
         // most unconstrained policies have a signature-less path and are (rightly) refused;
@@ -232,11 +235,21 @@ impl Check for C08 {
             "to_desc(Tr(None))", "to_desc(Tr(Some))", "compile_tr(None)", "compile_tr(Some)", "tr_native(1)", "tr_native(2)", "tr_native(8|1024)", "tr_private",
         ][target];
         rep.desc = format!("{} -> {}", text, tname);
-        let c = match Concrete::<DK>::from_str(&text) {
-            Ok(c) => c,
-            Err(_) => {
-                rep.class("policy-rejected-by-parser");
-                return Ok(());
+        let c = if nary {
+            match concrete_from_mpol(&p) {
+                Some(c) => {
+                    rep.class("nary:built");
+                    c
+                }
+                None => return Ok(()),
+            }
+        } else {
+            match Concrete::<DK>::from_str(&text) {
+                Ok(c) => c,
+                Err(_) => {
+                    rep.class("policy-rejected-by-parser");
+                    return Ok(());
+                }
             }
         };
         let unsp = DK::from_str(&unspendable()).expect("key");
@@ -375,4 +388,25 @@ impl Check for C08 {
         }
         Ok(())
     }
+}
+
+
+/// The concrete policy value of a mirror policy through the enum constructors (no text).
+fn concrete_from_mpol(p: &MPol) -> Option<Concrete<DK>> {
+    use miniscript::{AbsLockTime, RelLockTime, Threshold};
+    use std::sync::Arc;
+    Some(match p {
+        MPol::Unsat => Concrete::Unsatisfiable,
+        MPol::Trivial => Concrete::Trivial,
+        MPol::Key(k) => Concrete::Key(DK::from_str(k).ok()?),
+        MPol::After(v) => Concrete::After(AbsLockTime::from_consensus(*v).ok()?),
+        MPol::Older(v) => Concrete::Older(RelLockTime::from_consensus(*v).ok()?),
+        MPol::Sha256(h) => Concrete::Sha256(bitcoin::hashes::sha256::Hash::from_str(h).ok()?),
+        MPol::Hash256(h) => Concrete::Hash256(miniscript::hash256::Hash::from_str(h).ok()?),
+        MPol::Ripemd160(h) => Concrete::Ripemd160(bitcoin::hashes::ripemd160::Hash::from_str(h).ok()?),
+        MPol::Hash160(h) => Concrete::Hash160(bitcoin::hashes::hash160::Hash::from_str(h).ok()?),
+        MPol::And(v) => Concrete::And(v.iter().map(|x| concrete_from_mpol(x).map(Arc::new)).collect::<Option<Vec<_>>>()?),
+        MPol::Or(v) => Concrete::Or(v.iter().map(|(w, x)| concrete_from_mpol(x).map(|c| (*w, Arc::new(c)))).collect::<Option<Vec<_>>>()?),
+        MPol::Thresh(k, v) => Concrete::Thresh(Threshold::new(*k, v.iter().map(|x| concrete_from_mpol(x).map(Arc::new)).collect::<Option<Vec<_>>>()?).ok()?),
+    })
 }
